@@ -1201,10 +1201,18 @@ class Engine:
     def m_SStr_endswith(self, path, s, e):
         return SBool(z3.SuffixOf(self.to_str(path, self.ev(path, e.args[0])), s.t))
 
+    def m_SStr_rstrip(self, path, s, e):
+        if e.args:
+            raise EngineError("rstrip(chars)")
+        return SStr(self.c.rstrip(s.t))
+
     def m_SStr_strip(self, path, s, e):
         if e.args:
             raise EngineError("strip(chars)")
-        return SStr(self.c.strip(s.t))
+        r = self.c.strip(s.t)
+        # ground instances of facts true of str.strip: it never lengthens, and is idempotent
+        path.assume(z3.And(z3.Length(r) <= z3.Length(s.t), self.c.strip(r) == r))
+        return SStr(r)
 
     # ---- scanned-slice methods
     def m_SSlice_lower(self, path, s, e):
@@ -1737,7 +1745,7 @@ class Engine:
         for o in outs:
             if o.kind == "normal":
                 o.kind, o.value = "return", SNone()
-            if o.kind in ("break", "continue"):
+            if o.kind in ("break", "continue") and self.c.block_select is None:
                 raise EngineError("break/continue outside loop")
             self.c.check_post(self, entry, o)
         return self.vcs
